@@ -471,6 +471,20 @@ alloc_tail_pfn_block(kdump_ctx_t *ctx, struct pfn_block *block,
 	for (idx = 0; idx < next->n; ++idx) {
 		/* Zero means that the offset is not known yet. */
 		uint32_t off = block->offs[++nextidx];
+		if (off && off <= blockoff) {
+			/* This page was found in the file before the first
+			 * page of the new block, so its offset cannot be
+			 * expressed relative to it: start another block. */
+			res = alloc_tail_pfn_block(ctx, block, idx, nextidx);
+			if (res != KDUMP_OK) {
+				free(next->offs);
+				free(next);
+				return res;
+			}
+			next->n = idx;
+			realloc_pfn_offs(next, next->n);
+			break;
+		}
 		next->offs[idx] = off ? off - blockoff : 0;
 	}
 
